@@ -101,7 +101,12 @@ fn case(vi: usize, n: usize, rng: &mut Rng) -> Case {
         9 => {
             // Ema / Sma, incl. window 1 (no smoothing: drives the +-0.99 clamp)
             let k = *rng.pick(&[1usize, 1, 2, 5]);
-            let m = if rng.coin() { Spec::leaf(Kind::Ema(k)) } else { Spec::leaf(Kind::Sma(k)) };
+            let m = match rng.below(3) {
+                0 => Spec::leaf(Kind::Ema(k)),
+                1 => Spec::leaf(Kind::Sma(k)),
+                // a smoother that overshoots: the +-0.99 clamp must come after it
+                _ => rng.pick(&crate::catalogue::overshooting_ma_specs(rng.clone().usize(2, 12))).clone(),
+            };
             let b = 199f64.ln();
             (Spec::ma(MaK::Eft, n2, Spec::Echo, m), -b, b, false)
         }
